@@ -101,9 +101,12 @@ def gen_e2e(rng, n_cases):
                 stale.append([rng.randrange(n), rng.choice([1, 300, 2000]),
                               rng.choice(["output.pkl.thread-139872-pid-4242", "metadata.json.thread-139872-pid-4242",
                                           "output.pkl.thread-1-pid-7", "extra.bin"])])
+        nested = []
+        if rng.random() < 0.3:
+            nested = [[100 + j, rng.choice([0, 50, 500]), rng.randint(0, tmax) * 1000] for j in range(rng.choice([1, 2]))]
         vanish = rng.choice([None, None, 0, 1, 2])     # the k-th deletion finds a stale folder: deleted, then OSError(ESTALE)
         cases.append({"mode": "e2e", "entries": entries, "orphans": orphans, "bl": bl, "il": il, "al": al, "now": now,
-                      "vanish": vanish, "stale": stale, "loc": rng.choice(["abs", "abs", "hex", "rel", "relsub"])})
+                      "vanish": vanish, "stale": stale, "nested": nested, "loc": rng.choice(["abs", "abs", "hex", "rel", "relsub"])})
     return cases
 
 
@@ -197,14 +200,15 @@ def judge_e2e(c, r):
         return None if exp.get("raise") == r.get("raise") else "expected %s got %s" % (exp, r)
     evicted = set(exp["ok"])
     should_survive = sorted(a for a, _, _ in c["entries"] if a not in evicted)
-    all_ids = [a for a, _, _ in c["entries"]] + [-(i + 1) for i in range(len(c.get("orphans", [])))]
+    all_ids = [a for a, _, _ in c["entries"]] + [-(i + 1) for i in range(len(c.get("orphans", [])))] + \
+        [g for g, _, _ in c.get("nested", [])]
     dirs_should = sorted(a for a in all_ids if a not in evicted)
     if r["dirs_left"] != dirs_should or r["survivors"] != should_survive:
         return "after reduce_size survivors=%s dirs=%s, expected survivors %s dirs %s (store: %s)" % (
             r["survivors"], r["dirs_left"], should_survive, dirs_should, r.get("fs_items", r["items"]))
     if not r["values_ok"]:
         return "a cached call returned a wrong value after reduce_size"
-    if r["recomputed"] != sorted(a for a in evicted if a > 0):
+    if r["recomputed"] != sorted(a for a in evicted if 0 < a < 100):
         return "recomputed %s but evicted %s" % (r["recomputed"], sorted(evicted))
     return None
 
@@ -312,7 +316,8 @@ def run(ctx):
             if m.get("raise") != r.get("raise"):
                 disagreements.append({"function": "reduce_size", "case": c, "model": m, "impl": r})
             continue
-        all_ids = [a for a, _, _ in c["entries"]] + [-(i + 1) for i in range(len(c.get("orphans", [])))]
+        all_ids = [a for a, _, _ in c["entries"]] + [-(i + 1) for i in range(len(c.get("orphans", [])))] + \
+            [g for g, _, _ in c.get("nested", [])]
         exp = sorted(a for a in all_ids if a not in set(m["ok"]))
         if exp != r["dirs_left"]:
             disagreements.append({"function": "reduce_size", "case": c, "model": m, "impl": r})
